@@ -310,8 +310,13 @@ def analyse(placements, seed=0, modname='c05_mod'):
         lits, comments, names = ir_facts(sf)
     except Exception as e:  # pylint: disable=broad-except
         if b['cont_real']:
-            info['unsupported'] = True
-            return res
+            # is it the real argument on the continuation line alone that the frontend rejects?
+            alone = [p for p in placements if p[1] == 'cont_arg']
+            try:
+                Sourcefile.from_source(build(alone, seed, modname)['source'], frontend=Frontend.FP)
+            except Exception:  # pylint: disable=broad-except
+                info['unsupported'] = True
+                return res
         atoms.append(('program', 'does not parse', f'{type(e).__name__}: {str(e)[:160]}'))
         return res
     info['parsed'] = True
